@@ -136,7 +136,7 @@ func c14Families(tier string) []explore.Family {
 	}
 	nCfg := 64
 	G, A, B, M := len(graphs), len(c14Args), len(c14Bodies), len(mains)
-	return []explore.Family{c14ChangeFamily(), {Name: "include-configurations", Count: int64(nCfg * G * A * B * M * 2), Run: func(i int64, r *explore.Rec) {
+	return []explore.Family{c14ChangeFamily(), c14TwoRootsFamily(), {Name: "include-configurations", Count: int64(nCfg * G * A * B * M * 2), Run: func(i int64, r *explore.Rec) {
 		rx := radix{i}
 		noPath := rx.next(2) == 1
 		mi, bi, ai, gi, cfg := rx.next(M), rx.next(B), rx.next(A), rx.next(G), rx.next(nCfg)
@@ -369,6 +369,72 @@ func c14ChangeFamily() explore.Family {
 	}}
 }
 
+// c14TwoRootsFamily: ONE engine, two top-level templates in different directories that include the same
+// shared file (which itself includes a file by a relative name). Whatever the resolution rule of the nested
+// include is, the result of rendering a root must not depend on which other root was rendered on the engine
+// before: every order of the two roots is compared with each root rendered alone on a fresh engine.
+func c14TwoRootsFamily() explore.Family {
+	type layout struct{ name, rootA, rootB, incA, incB string }
+	layouts := []layout{
+		{"shared file reached from two directories", "main.html", "sub/index.html", "common/shared.inc", "../common/shared.inc"},
+		{"same relative name in two directories", "main.html", "sub/index.html", "part.inc", "part.inc"},
+		{"sibling directories", "x/one.html", "y/two.html", "../common/shared.inc", "../common/shared.inc"},
+	}
+	orders := [][]int{{0, 1}, {1, 0}, {0, 1, 0}, {1, 0, 1}, {0, 0, 1}, {1, 1, 0}}
+	return explore.Family{Name: "two-roots-one-engine", Count: int64(len(layouts) * len(orders) * 2), Run: func(i int64, r *explore.Rec) {
+		rx := radix{i}
+		sameLine, ord, lay := rx.next(2) == 1, orders[rx.next(len(orders))], layouts[rx.next(len(layouts))]
+		dir := filepath.Join(c14.root, "two")
+		os.RemoveAll(dir)
+		write := func(rel, content string) {
+			full := filepath.Join(dir, rel)
+			os.MkdirAll(filepath.Dir(full), 0o755)
+			if err := os.WriteFile(full, []byte(content), 0o644); err != nil {
+				panic(err)
+			}
+		}
+		// leaves with the same relative name in every directory a nested include could resolve against
+		for _, d := range []string{"", "sub", "common", "x", "y"} {
+			write(filepath.Join(d, "leaf.inc"), "<leaf in '"+d+"' for {{ who }}>")
+			write(filepath.Join(d, "part.inc"), "part in '"+d+"'[{% include \"leaf.inc\" %}]")
+		}
+		write("common/shared.inc", "shared[{% include \"leaf.inc\" %}]")
+		pad := ""
+		if !sameLine {
+			pad = "\n\n"
+		}
+		srcs := []string{"A:{% include \"" + lay.incA + "\" %}", pad + "B:{% include \"" + lay.incB + "\" %}"}
+		paths := []string{filepath.Join(dir, lay.rootA), filepath.Join(dir, lay.rootB)}
+		render := func(e *liquid.Engine, k int) string {
+			var o Outcome
+			o.Panic = explore.Safe(func() {
+				tpl, err := e.ParseTemplateLocation([]byte(srcs[k]), paths[k], 1)
+				if err != nil {
+					o.Err = err
+					return
+				}
+				out, err := tpl.Render(map[string]any{"who": []string{"a", "b"}[k]})
+				o.Out, o.Err = string(out), err
+			})
+			return strings.ReplaceAll(o.Sig(), dir, "$DIR")
+		}
+		solo := []string{render(liquid.NewEngine(), 0), render(liquid.NewEngine(), 1)}
+		shared := liquid.NewEngine()
+		var hist []string
+		for _, k := range ord {
+			hist = append(hist, []string{lay.rootA, lay.rootB}[k])
+			r.Eval()
+			got := render(shared, k)
+			if got != solo[k] {
+				r.Violation("depends-on-earlier-render-of-another-root", map[string]any{"layout": lay.name, "rendered_in_order": hist, "templates": srcs, "same_line": sameLine},
+					"as on a fresh engine: "+solo[k], got)
+				return
+			}
+		}
+		r.Class("two-roots/" + lay.name)
+	}}
+}
+
 // firstMissingReached tells whether the first failure on the render path is a missing file
 // (an earlier failing body would be reported instead).
 func firstMissingReached(g c14Graph, states map[string]int, resolved map[string]string, used map[string]string) bool {
@@ -387,7 +453,7 @@ func init() {
 		ID:    "C14",
 		Level: "fault_enumeration",
 		Rule: "three files (a, a2, sub/b relative to the main template) each independently on disk / in the cache only / in both with different content / missing (4^3 = 64 configurations; 'missing' is the injected fault) x 7 acyclic include graphs (one whose file edges carry trim markers) x 8 argument forms (literal, variable, variable assigned earlier, filtered expression, map property, three non-strings) x 4 included bodies (reads variables, assigns, failing filter, syntax error) x main template parsed at 2 (quick) / 3 directory depths and without a path; " +
-			"a second family changes the included file between renders of one parsed template on one engine (all sequences of 3 states from {disk v1, disk v2, removed with/without cache entry}, direct and nested); oracle = reference inliner (textual substitution of resolved content) rendered by the engine itself, or a SourceError with os.IsNotExist cause; class = (graph, argument form, outcome kind)",
+			"a second family changes the included file between renders of one parsed template on one engine (all sequences of 3 states from {disk v1, disk v2, removed with/without cache entry}, direct and nested); a third family renders two roots from different directories that share an included file on ONE engine in every order (each result must equal the fresh-engine result); oracle = reference inliner (textual substitution of resolved content) rendered by the engine itself, or a SourceError with os.IsNotExist cause; class = (graph, argument form, outcome kind)",
 		Assumptions: []string{
 			"nested includes are only generated between files of the main template's own directory, where 'relative to the includer' and 'relative to the main template' coincide (the statement does not separate them)",
 			"cache entries are registered under the cleaned joined path",
